@@ -1,3 +1,4 @@
+import Mixin.Facts.ExpectedC35
 import Mixin.Model.Topology
 /-!
 # C35 — local topology order is a strictly increasing unique cursor
